@@ -131,3 +131,13 @@ Proof.
         | unfold Layout.add_flags; cbv zeta; revert flags; induction fs as [|x t IH]; intros flags; cbn [fold_left];
           [ reflexivity | apply IH ] ].
 Qed.
+
+(* ---- the small append helpers of PrintCtx ---- *)
+Lemma gen_pc_append_byte buf b : Layout.pc_append_byte buf b = Some (buf ++ [zb b]).
+Proof. reflexivity. Qed.
+Lemma gen_pc_append_string_value buf str : Layout.pc_append_string_value buf str = Some (buf ++ str).
+Proof. reflexivity. Qed.
+Lemma gen_pc_append_colon j buf : Layout.pc_append_colon j buf = Some (buf ++ [if j then x3a else x3d]).
+Proof. first [ reflexivity | unfold Layout.pc_append_colon; destruct j; reflexivity ]. Qed.
+Lemma gen_pc_append_comma j buf : Layout.pc_append_comma j buf = Some (buf ++ [if j then x2c else x20]).
+Proof. first [ reflexivity | unfold Layout.pc_append_comma; destruct j; reflexivity ]. Qed.
